@@ -13,17 +13,18 @@ def register(PROPS):
         'technique': 'bounded exhaustive enumeration of limit values x spellings x event shapes pushed through the unmodified functions of '
                      'all three programs in one harness (echsq.c add_fd/massage/icalify -> echsd.c feed_cmd/cmd_ical/_inject_task1/resched/'
                      'task_cb/run_task/vtodoify -> echsx.c main/echsx/set_timeout, each source file included into a TU of its own), '
-                     'alarm() and time() interposed in the echsx TU; plus six real-time runs of the echsx binary (thorough)',
+                     'alarm() and time() interposed in the echsx TU; plus real-time runs of the echsx binary (four in the quick tier, nine in the thorough tier, three of them request streams with two or three requests)',
         'claim': 'For every limit in the bound, written as DTEND, as DURATION in every legal RFC 5545 spelling (with and without a '
                  'leading +) on a single and on a recurring event, the number of seconds echsx arms for the run equals the limit; for '
                  'execution requests with DUE, echsx arms due - now for three positions of the clock and refuses a DUE in the past '
-                 'with the documented journal entry without starting the job.  Thorough: real jobs outliving a 1 s / 2 s limit die '
-                 'within [limit, limit + 4 s] with the signal in the journal, a job finishing earlier is unaffected.',
+                 'with the documented journal entry without starting the job.  Real runs: jobs outliving a 1 s / 2 s limit die '
+                 'within [limit, limit + 4 s] with the signal in the journal, a job finishing earlier is unaffected; this holds for every request of a '
+                 'stream of two or three requests handled by one echsx process (what one request leaves behind - handler, pending alarm - meets the next).',
         'note': 'The end-to-end clause is "seconds armed in echsx == limit".  The hand-overs in between (text echsq sends, duration the '
                 'daemon holds, DURATION line of the execution request, echsx given the same limit in ISO form) are judged too, but '
                 'reported only for cases whose end-to-end clause fails, as a diagnosis of the hop that loses the limit.  The daemon side '
                 'is driven by calling the callbacks in the order libev does (reschedule_cb, then task_cb) instead of waiting for 2031; '
-                'kill latency is observed on six runs, not enumerated.',
+                'kill latency is observed on nine runs, not enumerated.',
         'rule': 'a case is one (limit, spelling, event shape) triple [chain] or one (clock position, DUE offset) pair [due] or one real run '
                 '[real-time]; all distinct by construction; non-trivial = the chain reached echsx and echsx was run on the request '
                 '(every case that is not reported as chain-died / echsd-refused)',
@@ -31,15 +32,15 @@ def register(PROPS):
             'quick': 'limits 1..180 s every second + 40 values from 5 min to 4 weeks (incl. 86399/86400/86401 s, 2^31 ms +- 1 s) x '
                      '{DTEND, DURATION as PTnS, PTnM, PTnH, PnD, PnW, PnDTnHnMnS with zeros, PTnMnS, PTnHnM, normalised} x {no sign, +} x '
                      '{single event, FREQ=DAILY;COUNT=3 (first two runs)}: 3540 chain cases; DUE = now + each of the 220 limits and DUE = now - '
-                     '{1 s .. 1 year} for now in {2030-06-15T12:00:00Z, 2031-01-15T08:30:00Z, 2032-02-28T23:59:30Z}: 681 cases',
-            'thorough': 'as quick with limits 1..1800 s every second (26k chain cases, 5.5k DUE cases) + 6 real-time runs '
-                        '(sleep 8 under 1 s and 2 s given as DURATION and DTEND; sleep 0 under 2 s)',
+                     '{1 s .. 1 year} for now in {2030-06-15T12:00:00Z, 2031-01-15T08:30:00Z, 2032-02-28T23:59:30Z}: 681 cases; 4 real-time runs (two single requests, two streams)',
+            'thorough': 'as quick with limits 1..1800 s every second (26k chain cases, 5.5k DUE cases) + 9 real-time runs '
+                        '(sleep 8 under 1 s and 2 s given as DURATION and DTEND; sleep 0 under 2 s; streams killed+killed, killed+unharmed+killed, unharmed+killed+killed)',
         },
         'targets': [os.path.join(_X, x) for x in ('echsx_shim.so', 'c14_chain')],
         'drivers': [
             D('build/plain/exec/c14_chain', ['mode=chain', 'maxsec=180'], ['mode=chain', 'maxsec=1800'], label='chain'),
             D('build/plain/exec/c14_chain', ['mode=due', 'maxsec=180'], ['mode=due', 'maxsec=1800'], label='due'),
-            D('harness/exec/c14_rt.py', [], [], label='real-time', interp=_PY, shards=1, tiers=('thorough',)),
+            D('harness/exec/c14_rt.py', ['set=quick'], [], label='real-time', interp=_PY, shards=1),
         ],
         'assumptions': [
             'limits are whole seconds (neither DURATION nor the date-time forms used carry fractions); DTSTART/DTEND in UTC form',
